@@ -174,6 +174,56 @@ void reify_mag_eq(const char *tag) {
     printf("{\"ev\":\"mageq\",\"tag\":\"%s\",\"same_type\":%d,\"op_eq\":%d,\"op_ne\":%d}\n", tag, (int)std::is_same<A, B>::value, (int)(A{} == B{}), (int)(A{} != B{}));
 }
 
+// ---- constants (C16) -----------------------------------------------------------------------------
+template <typename T, typename C, typename U, bool Ok>
+struct ConstVals { static void put() { printf("null"); } };
+template <typename T, typename C, typename U>
+struct ConstVals<T, C, U, true> {
+    static void put() {
+        constexpr C c{};
+        const T a = c.template as<T>(U{}).in(U{});
+        const T b = c.template in<T>(U{});
+        const au::Quantity<U, T> q = c;  // implicit conversion
+        const T d = q.in(U{});
+        printf("[");
+        PutVal<T>::put(a); printf(","); PutVal<T>::put(b); printf(","); PutVal<T>::put(d);
+        printf("]");
+    }
+};
+template <typename T, typename C, typename U>
+void const_type(const char *tname, bool first) {
+    constexpr bool can = C::template can_store_value_in<T>(U{});
+    printf("%s\"%s\":{\"can\":%d,\"vals\":", first ? "" : ",", tname, (int)can);
+    ConstVals<T, C, U, can>::put();
+    printf("}");
+}
+template <typename C, typename U>
+void reify_const(const char *tag) {
+    using CU = au::AssociatedUnitT<C>;
+    printf("{\"ev\":\"const\",\"tag\":\"%s\",\"ratio\":", tag);
+    print_mag<au::UnitRatioT<CU, U>>();
+    printf(",\"types\":{");
+    const_type<int8_t, C, U>("int8_t", true); const_type<uint8_t, C, U>("uint8_t", false); const_type<int16_t, C, U>("int16_t", false); const_type<uint16_t, C, U>("uint16_t", false);
+    const_type<int32_t, C, U>("int32_t", false); const_type<uint32_t, C, U>("uint32_t", false); const_type<int64_t, C, U>("int64_t", false); const_type<uint64_t, C, U>("uint64_t", false);
+    const_type<float, C, U>("float", false); const_type<double, C, U>("double", false); const_type<long double, C, U>("long double", false);
+    printf("}}\n");
+}
+
+// composition: the stored number must not change, only the unit.  `got` is the resulting quantity.
+template <typename Q, typename T>
+void reify_composed(const char *tag, Q got, T want_value) {
+    using U = typename Q::Unit;
+    printf("{\"ev\":\"comp\",\"tag\":\"%s\",", tag);
+    unit_core<U>();
+    printf(",\"same_rep\":%d,\"value_ok\":%d}\n", (int)std::is_same<typename Q::Rep, T>::value, (int)(got.in(U{}) == want_value));
+}
+template <typename W>
+void reify_wrapped_unit(const char *tag, W) {
+    printf("{\"ev\":\"comp\",\"tag\":\"%s\",", tag);
+    unit_core<au::AssociatedUnitT<W>>();
+    printf(",\"same_rep\":1,\"value_ok\":1}\n");
+}
+
 }  // namespace vfy
 
 #endif
